@@ -122,7 +122,7 @@ func init() {
 	reg(&PropSpec{
 		ID: "C08", Prefix: "vh_C08_", MaxSteps: 20000000, Repeat: 60,
 		Quick:    Tier{Params: map[string]int{"kwpos": 2, "spellings": 2}},
-		Thorough: Tier{Params: map[string]int{"kwpos": 12, "spellings": 2}},
+		Thorough: Tier{Params: map[string]int{"kwpos": 5, "spellings": 2}},
 		Bounds: []string{
 			"worlds: root definitions A (slot: reference to B, to C in a sub-directory document, to D in a third document, to a missing pointer, a missing document, a string / number / array / boolean target, or nothing), B (slot: C or nothing), a root response whose schema refers to A; C (slot: a pointer missing in its own document, D, back to B, or nothing)",
 			"deep: every one of the 12 keyword positions with a good / dangling / missing-document / non-object reference one level below it", "ops: the ops family (C02) where the parameter reference of the operation without responses may dangle or name a missing document",
